@@ -39,9 +39,24 @@ def _setup(ctx, is_method, lookup_table):
     analysis = Record(is_method=is_method, name_to_positions={"P0": {0}, "P1": {1}, "P2": {2}, "K0": {"K0"}, "K1": {"K1"}})
     kwargs = {}
     rparams = rc.params
+    def core(e):
+        """the name under harmless wrappers: tuple(x) / list(x) / `x or None` / a temporary the model introduced"""
+        while True:
+            if isinstance(e, ast.Call) and call_name(e) in ("tuple", "list") and len(e.args) == 1 and not e.keywords:
+                e = e.args[0]
+            elif isinstance(e, ast.BoolOp) and isinstance(e.op, ast.Or) and len(e.values) == 2 and isinstance(e.values[1], ast.Constant) and e.values[1].value is None:
+                e = e.values[0]
+            elif isinstance(e, ast.Name) and e.id not in rc.params:
+                defs = [s_.value for s_ in ast.walk(rc.node) if isinstance(s_, ast.Assign) and len(s_.targets) == 1 and isinstance(s_.targets[0], ast.Name) and s_.targets[0].id == e.id]
+                if len(defs) != 1:
+                    return e
+                e = defs[0]
+            else:
+                return e
+
     for p, expr in passed.items():
         role = role_of_param.get(p)
-        d = dotted(expr)
+        d = dotted(core(expr))
         if role == "ovld":
             kwargs[p] = "OVLD_G"
         elif role == "map":
